@@ -83,7 +83,8 @@ Definition fid (r : ires) (m : gres) : bool :=
    | 2 an object does not carry the coordinates it was read from | 3 an object does not hold the content of its position
    | 4 an object keeps a repeat although the read expands | 5 a documented copy is live (the table changed when it was mutated)
    | 6 mutating a documented copy changed another returned object | 11 outside the fragment
-   | 8 the MODEL does not meet the specification here (a theorem instance) | 9 only the exact result differs from the model *)
+   | 12 get_cells(area): only the padding cells of rows stored narrower than the area are missing (F30, known finding)
+   | 8 the MODEL does not meet the as-stored specification here (a theorem instance) | 9 only the exact result differs from the model *)
 Definition chk_c08 (ob : obs8) : nat :=
   let '(Obs8 pre q raised post res) := ob in
   if negb (in_fragment pre && in_fragment post) then 11%nat
@@ -91,12 +92,18 @@ Definition chk_c08 (ob : obs8) : nat :=
   else if negb (tstate_eqb (to_tstate pre) (to_tstate post)) then 7%nat
   else
     let t := to_tstate pre in
-    match spec_code (promises_copy q) (expands q) res (spec_get (abs_t t) q) with
-    | S k => S k
-    | O => if negb (meets (promises_copy q) (expands q) (m_get false t q) (spec_get (abs_t t) q)) then 8%nat
-           else if fid res (m_get false t q) then 0%nat else 9%nat
+    let m := m_get false false t q in
+    match spec_code (promises_copy q) (expands q) res (spec_get true (abs_t t) q) with
+    | S k =>
+        (* F30, known finding: get_cells(area) — the answer is exactly the model's, meets the as-stored reading in every respect,
+           and differs from the documented reading only by the padding cells of rows stored narrower than the area *)
+        if is_area_get_cells q && fid res m
+           && (spec_code (promises_copy q) (expands q) res (spec_get false (abs_t t) q) =? 0)%nat then 12%nat
+        else S k
+    | O => if negb (meets (promises_copy q) (expands q) m (spec_get false (abs_t t) q)) then 8%nat
+           else if fid res m then 0%nat else 9%nat
     end.
 (* the same against the model of the PINNED getters (validation of the refuted statements) *)
 Definition chk_c08_pinned (ob : obs8) : nat :=
   let '(Obs8 pre q raised post res) := ob in
-  if raised then 10%nat else if fid res (m_get true (to_tstate pre) q) then 0%nat else 9%nat.
+  if raised then 10%nat else if fid res (m_get true false (to_tstate pre) q) then 0%nat else 9%nat.
